@@ -4,19 +4,13 @@ import Syzgy.Lemmas.Parse
 namespace Syzgy
 
 /-- what `scanFile` does with one segment found at offset `off` -/
-def scanStep (off : Nat) (acc : ScanAcc) : Seg → ScanAcc
-  | .act seq rid _ _ =>
-    let highest := if seq > acc.highest then seq else acc.highest
-    let newer := match idxGet acc.seqs rid with
-      | none => true
-      | some e => decide (seq > e)
-    if newer then { acc with highest := highest, seqs := idxSet acc.seqs rid seq, index := idxSet acc.index rid off }
-    else { acc with highest := highest }
+def scanStep (file : Bytes) (ro : Bool) (off : Nat) (acc : ScanAcc) : Seg → ScanAcc
+  | .act seq rid _ _ => scanActive file ro acc off seq rid
   | .free junk => { acc with free := markFree acc.free off (8 + junk.length) }
 
-def scanSegs : Nat → List Seg → ScanAcc → ScanAcc
+def scanSegs (file : Bytes) (ro : Bool) : Nat → List Seg → ScanAcc → ScanAcc
   | _, [], acc => acc
-  | off, s :: ss, acc => scanSegs (off + s.size) ss (scanStep off acc s)
+  | off, s :: ss, acc => scanSegs file ro (off + s.size) ss (scanStep file ro off acc s)
 
 def segsSize (segs : List Seg) : Nat := (segs.map Seg.size).sum
 
@@ -77,13 +71,18 @@ theorem Seg.rd_len (s : Seg) (h : s.OK) (t : Bytes) : rd32 ((s.bytes ++ t).drop 
 
 theorem markFree_zero (fm : List Sp) (off : Nat) : markFree fm off 0 = fm := by simp [markFree]
 
-/-- the loop invariant: after scanning, index/highest agree with the segment fold and the
+/-- the patch a zero tail of `z ≥ 15` bytes receives in the writable modes -/
+def tailPatch (ro : Bool) (off z : Nat) : List (Nat × Bytes) :=
+  if ro ∨ z < minSpanLength then [] else [(off, be32 freeMagic ++ be32 (z % 4294967296))]
+
+/-- the loop invariant: after scanning, index/highest/patches agree with the segment fold and the
     free map agrees once the final `addFreeSpan(offset, fileSize-offset)` is applied -/
-theorem scanLoop_render (segs : List Seg) (hok : ∀ s ∈ segs, s.OK) (z off fileSize fuel : Nat) (acc : ScanAcc)
+theorem scanLoop_render (file : Bytes) (ro : Bool) (segs : List Seg) (hok : ∀ s ∈ segs, s.OK) (z off fileSize fuel : Nat) (acc : ScanAcc)
     (hsize : fileSize = off + segsSize segs + z) (hfuel : segs.length < fuel) :
-    ∃ acc' off', scanLoop fileSize fuel off (render segs ++ zeros z) acc = .ok (acc', off') ∧
-      acc'.index = (scanSegs off segs acc).index ∧ acc'.highest = (scanSegs off segs acc).highest ∧
-      markFree acc'.free off' (fileSize - off') = markFree (scanSegs off segs acc).free (off + segsSize segs) z := by
+    ∃ acc' off', scanLoop file ro fileSize fuel off (render segs ++ zeros z) acc = .ok (acc', off') ∧
+      acc'.index = (scanSegs file ro off segs acc).index ∧ acc'.highest = (scanSegs file ro off segs acc).highest ∧
+      acc'.patches = (scanSegs file ro off segs acc).patches ++ tailPatch ro (off + segsSize segs) z ∧
+      markFree acc'.free off' (fileSize - off') = markFree (scanSegs file ro off segs acc).free (off + segsSize segs) z := by
   induction segs generalizing off acc fuel with
   | nil =>
     cases fuel with
@@ -95,20 +94,24 @@ theorem scanLoop_render (segs : List Seg) (hok : ∀ s ∈ segs, s.OK) (z off fi
       by_cases h0 : off ≥ fileSize
       · have hz : z = 0 := by omega
         simp only [h0, ↓reduceIte]
-        exact ⟨acc, off, rfl, rfl, rfl, by subst hz; congr 1; omega⟩
+        exact ⟨acc, off, rfl, rfl, rfl, by subst hz; simp [tailPatch, minSpanLength], by subst hz; congr 1; omega⟩
       · simp only [h0, ↓reduceIte]
         by_cases h15 : off + minSpanLength > fileSize
         · simp only [h15, ↓reduceIte]
-          exact ⟨acc, off, rfl, rfl, rfl, by congr 1; omega⟩
+          have hz15 : z < minSpanLength := by omega
+          exact ⟨acc, off, rfl, rfl, rfl, by simp [tailPatch, hz15], by congr 1; omega⟩
         · simp only [h15, ↓reduceIte]
           have hz15 : 15 ≤ z := by simp only [minSpanLength] at h15; omega
           rw [rd32_zeros z (by omega)]
           have hd : (zeros z).drop 4 = zeros (z - 4) := by simp [zeros]
           rw [hd, rd32_zeros (z - 4) (by omega)]
           simp only [↓reduceIte]
-          refine ⟨_, fileSize, rfl, rfl, rfl, ?_⟩
-          simp only [Nat.sub_self, markFree_zero]
-          congr 1; omega
+          refine ⟨_, fileSize, rfl, rfl, rfl, ?_, ?_⟩
+          · have hzz : fileSize - off = z := by omega
+            have hn15 : ¬ (z < minSpanLength) := by simp only [minSpanLength]; omega
+            cases ro <;> simp [tailPatch, hn15, hzz]
+          · simp only [Nat.sub_self, markFree_zero]
+            congr 1; omega
   | cons s ss ih =>
     cases fuel with
     | zero => simp at hfuel
@@ -131,7 +134,7 @@ theorem scanLoop_render (segs : List Seg) (hok : ∀ s ∈ segs, s.OK) (z off fi
         rw [← Seg.bytes_length s hs, List.drop_left]
       have hfit : ¬ (off + s.size > fileSize) := by omega
       have hne : ¬ (s.size = 0) := by simp only [minSpanLength] at hge; omega
-      have hrec := ih hss (off + s.size) f (scanStep off acc s) (by omega) (by simpa using hfuel)
+      have hrec := ih hss (off + s.size) f (scanStep file ro off acc s) (by omega) (by simpa using hfuel)
       cases s with
       | act seq rid streams pad =>
         have hmz : ¬ (activeMagic = 0) := by decide
@@ -141,37 +144,40 @@ theorem scanLoop_render (segs : List Seg) (hok : ∀ s ∈ segs, s.OK) (z off fi
         have hp := parseSpan_actBytes seq rid streams pad [] hs
         simp only [List.append_nil] at hp
         simp only [Seg.bytes, hp]
-        obtain ⟨acc', off', h1, h2, h3, h4⟩ := hrec
-        refine ⟨acc', off', ?_, ?_, ?_, ?_⟩
+        obtain ⟨acc', off', h1, h2, h3, h5, h4⟩ := hrec
+        refine ⟨acc', off', ?_, ?_, ?_, ?_, ?_⟩
         · rw [← h1]
           simp only [scanStep, Seg.size]
-          rfl
         · simpa [scanSegs] using h2
         · simpa [scanSegs] using h3
+        · simp only [scanSegs, hsz]; rw [h5]; congr 2; omega
         · simp only [scanSegs, hsz]; rw [h4]; congr 1; omega
       | free junk =>
         have hmz : ¬ (freeMagic = 0) := by decide
         have hma : ¬ (freeMagic = activeMagic) := by decide
         simp only [hmz, hma, ↓reduceIte, hfit, hdrop, hne]
-        obtain ⟨acc', off', h1, h2, h3, h4⟩ := hrec
-        refine ⟨acc', off', ?_, ?_, ?_, ?_⟩
+        obtain ⟨acc', off', h1, h2, h3, h5, h4⟩ := hrec
+        refine ⟨acc', off', ?_, ?_, ?_, ?_, ?_⟩
         · rw [← h1]; rfl
         · simpa [scanSegs] using h2
         · simpa [scanSegs] using h3
+        · simp only [scanSegs, hsz]; rw [h5]; congr 2; omega
         · simp only [scanSegs, hsz]; rw [h4]; congr 1; omega
 
 /-- **scan ∘ render**: opening a file that is a rendered segment list plus a zero tail yields
-    exactly the segment-level fold. -/
-theorem scanFile_render (segs : List Seg) (hok : ∀ s ∈ segs, s.OK) (z : Nat) :
-    let A := scanSegs 0 segs { index := [], seqs := [], free := [], highest := 0 }
-    scanFile (render segs ++ zeros z) =
-      .ok { file := render segs ++ zeros z, index := A.index,
+    exactly the segment-level fold; the stores issued while scanning are the fold's patches plus the
+    FREE header of the tail. -/
+theorem scanFile_render (segs : List Seg) (hok : ∀ s ∈ segs, s.OK) (z : Nat) (ro : Bool) :
+    let file := render segs ++ zeros z
+    let A := scanSegs file ro 0 segs { index := [], seqs := [], free := [], highest := 0 }
+    scanFile file ro =
+      .ok { file := applyPatches file (A.patches ++ tailPatch ro (segsSize segs) z), index := A.index,
             free := markFree A.free (segsSize segs) z, seq := (A.highest + 1) % 4294967296 } := by
-  intro A
+  intro file A
   unfold scanFile
-  have hlen : (render segs ++ zeros z).length = 0 + segsSize segs + z := by
-    simp [render_length segs hok, zeros_length]
-  have hfuel : segs.length < (render segs ++ zeros z).length + 1 := by
+  have hlen : file.length = 0 + segsSize segs + z := by
+    simp [file, render_length segs hok, zeros_length]
+  have hfuel : segs.length < file.length + 1 := by
     rw [hlen]
     have : segs.length ≤ segsSize segs := by
       clear hlen
@@ -183,9 +189,116 @@ theorem scanFile_render (segs : List Seg) (hok : ∀ s ∈ segs, s.OK) (z : Nat)
         simp only [segsSize, List.map_cons, List.sum_cons, List.length_cons, minSpanLength] at *
         omega
     omega
-  obtain ⟨acc', off', h1, h2, h3, h4⟩ := scanLoop_render segs hok z 0 _ _ { index := [], seqs := [], free := [], highest := 0 } hlen hfuel
+  obtain ⟨acc', off', h1, h2, h3, h5, h4⟩ := scanLoop_render file ro segs hok z 0 _ _ { index := [], seqs := [], free := [], highest := 0 } hlen hfuel
   rw [h1]
-  simp only [h2, h3, h4, Nat.zero_add]
+  simp only [h2, h3, h4, h5, Nat.zero_add]
   rfl
+
+/-- segments with pairwise distinct record ids: the scan never meets a duplicate, issues no store
+    for them, and indexes every active segment at its offset -/
+theorem scanActive_fresh (file : Bytes) (ro : Bool) (acc : ScanAcc) (off seq : Nat) (rid : Bytes)
+    (h : idxGet acc.seqs rid = none) :
+    scanActive file ro acc off seq rid =
+      { acc with highest := (if seq > acc.highest then seq else acc.highest), seqs := idxSet acc.seqs rid seq,
+                 index := idxSet acc.index rid off } := by
+  simp [scanActive, h]
+
+end Syzgy
+
+namespace Syzgy
+
+theorem idxGet_none_iff (ix : List (Bytes × Nat)) (k : Bytes) : idxGet ix k = none ↔ ∀ e ∈ ix, e.1 ≠ k := by
+  unfold idxGet
+  cases h : ix.find? (fun e => e.1 == k) with
+  | none =>
+    simp only [true_iff]
+    intro e he
+    have := List.find?_eq_none.mp h e he
+    simpa using this
+  | some e =>
+    simp only [reduceCtorEq, false_iff]
+    intro hall
+    have hm := List.mem_of_find?_eq_some h
+    have hp := List.find?_some h
+    exact hall e hm (by simpa using hp)
+
+theorem idxDel_fresh (ix : List (Bytes × Nat)) (k : Bytes) (h : ∀ e ∈ ix, e.1 ≠ k) : idxDel ix k = ix := by
+  unfold idxDel
+  rw [List.filter_eq_self]
+  intro e he
+  simpa using h e he
+
+/-- record ids of the active segments, in file order -/
+def actRids : List Seg → List Bytes
+  | [] => []
+  | .act _ rid _ _ :: r => rid :: actRids r
+  | .free _ :: r => actRids r
+
+/-- (rid, offset) of the active segments, last one first (the order `scanFile` builds) -/
+def indexRev : Nat → List Seg → List (Bytes × Nat) → List (Bytes × Nat)
+  | _, [], acc => acc
+  | off, .act seq rid st pad :: r, acc => indexRev (off + (Seg.act seq rid st pad).size) r ((rid, off) :: acc)
+  | off, .free junk :: r, acc => indexRev (off + (Seg.free junk).size) r acc
+
+def maxSeq : List Seg → Nat → Nat
+  | [], m => m
+  | .act seq _ _ _ :: r, m => maxSeq r (if seq > m then seq else m)
+  | .free _ :: r, m => maxSeq r m
+
+def freeFold : Nat → List Seg → List Sp → List Sp
+  | _, [], fm => fm
+  | off, .act seq rid st pad :: r, fm => freeFold (off + (Seg.act seq rid st pad).size) r fm
+  | off, .free junk :: r, fm => freeFold (off + (Seg.free junk).size) r (markFree fm off (8 + junk.length))
+
+/-- with pairwise distinct record ids the scan issues no store and indexes every active segment -/
+theorem scanSegs_distinct (file : Bytes) (ro : Bool) (segs : List Seg) (off : Nat) (acc : ScanAcc)
+    (hnd : (actRids segs).Nodup) (hfresh : ∀ r ∈ actRids segs, ∀ e ∈ acc.seqs, e.1 ≠ r)
+    (hix : ∀ r ∈ actRids segs, ∀ e ∈ acc.index, e.1 ≠ r) :
+    let A := scanSegs file ro off segs acc
+    A.patches = acc.patches ∧ A.index = indexRev off segs acc.index ∧ A.highest = maxSeq segs acc.highest ∧
+    A.free = freeFold off segs acc.free := by
+  induction segs generalizing off acc with
+  | nil => exact ⟨rfl, rfl, rfl, rfl⟩
+  | cons s ss ih =>
+    cases s with
+    | free junk =>
+      simp only [scanSegs, scanStep, indexRev, maxSeq, freeFold]
+      exact ih _ _ (by simpa [actRids] using hnd) (by simpa [actRids] using hfresh) (by simpa [actRids] using hix)
+    | act seq rid st pad =>
+      simp only [actRids, List.nodup_cons] at hnd
+      have hf : idxGet acc.seqs rid = none := (idxGet_none_iff _ _).mpr (fun e he => hfresh rid (by simp [actRids]) e he)
+      simp only [scanSegs, scanStep, scanActive_fresh file ro acc off seq rid hf, indexRev, maxSeq, freeFold]
+      have hdel : idxDel acc.index rid = acc.index := idxDel_fresh _ _ (fun e he => hix rid (by simp [actRids]) e he)
+      have := ih (off + (Seg.act seq rid st pad).size)
+        { acc with highest := (if seq > acc.highest then seq else acc.highest), seqs := idxSet acc.seqs rid seq,
+                   index := idxSet acc.index rid off } hnd.2
+        (by
+          intro r hr e he
+          simp only [idxSet, List.mem_cons] at he
+          rcases he with rfl | he
+          · intro h; simp only at h; subst h; exact hnd.1 hr
+          · exact hfresh r (by simp [actRids, hr]) e (List.mem_filter.mp he).1)
+        (by
+          intro r hr e he
+          simp only [idxSet, List.mem_cons] at he
+          rcases he with rfl | he
+          · intro h; simp only at h; subst h; exact hnd.1 hr
+          · exact hix r (by simp [actRids, hr]) e (List.mem_filter.mp he).1)
+      simpa [idxSet, hdel] using this
+
+/-- **reopening a quiescent file**: a rendered segment list with pairwise distinct record ids is
+    opened, in every mode, without a single store; the index is exactly the active segments, the
+    free map the fold of the FREE segments, the next sequence number one above the highest. -/
+theorem scanFile_quiescent (segs : List Seg) (hok : ∀ s ∈ segs, s.OK) (hnd : (actRids segs).Nodup) (ro : Bool) :
+    scanFile (render segs) ro =
+      .ok { file := render segs, index := indexRev 0 segs [], free := freeFold 0 segs [],
+            seq := (maxSeq segs 0 + 1) % 4294967296 } := by
+  have h := scanFile_render segs hok 0 ro
+  simp only [zeros, List.replicate_zero, List.append_nil] at h
+  obtain ⟨h1, h2, h3, h4⟩ := scanSegs_distinct (render segs) ro segs 0
+    { index := [], seqs := [], free := [], highest := 0 } hnd (by simp) (by simp)
+  rw [h]
+  simp only [h1, h2, h3, h4, tailPatch, minSpanLength, Nat.zero_lt_succ, or_true, ↓reduceIte, List.append_nil,
+    applyPatches, List.foldl_nil, markFree_zero]
 
 end Syzgy
